@@ -38,6 +38,35 @@ def headers_hash():
     return _hh
 
 
+PRELUDE_EMU = r'''
+#include <xsimd/xsimd.hpp>
+#include <cstdint>
+#include <complex>
+// the emulated architectures keep a batch in a std::array: the wrappers exchange it as one vector register
+typedef %(arch)s A;
+template <class T> using V_ = T __attribute__((vector_size(%(bytes)d)));
+template <class T> struct R_
+{
+    V_<T> v;
+    R_() = default;
+    R_(xsimd::batch<T, A> const& b) noexcept { __builtin_memcpy(&v, &b.data, sizeof v); }
+};
+template <class T> struct B_ : xsimd::batch<T, A>
+{
+    B_(R_<T> r) noexcept { __builtin_memcpy(&this->data, &r.v, sizeof r.v); }
+};
+template <class T> using M_ = xsimd::batch_bool<T, A>;
+template <class T> using Q_ = typename xsimd::batch_bool<T, A>::register_type;
+template <class T> using C_ = xsimd::batch<std::complex<T>, A>;
+extern "C" {
+R_<int8_t> ext_f_i8(R_<int8_t>, R_<int8_t>) noexcept; R_<uint8_t> ext_f_u8(R_<uint8_t>, R_<uint8_t>) noexcept;
+R_<int16_t> ext_f_i16(R_<int16_t>, R_<int16_t>) noexcept; R_<uint16_t> ext_f_u16(R_<uint16_t>, R_<uint16_t>) noexcept;
+R_<int32_t> ext_f_i32(R_<int32_t>, R_<int32_t>) noexcept; R_<uint32_t> ext_f_u32(R_<uint32_t>, R_<uint32_t>) noexcept;
+R_<int64_t> ext_f_i64(R_<int64_t>, R_<int64_t>) noexcept; R_<uint64_t> ext_f_u64(R_<uint64_t>, R_<uint64_t>) noexcept;
+R_<float> ext_f_f32(R_<float>, R_<float>) noexcept; R_<double> ext_f_f64(R_<double>, R_<double>) noexcept;
+}
+'''
+
 PRELUDE = r'''
 #include <xsimd/xsimd.hpp>
 #include <cstdint>
